@@ -343,15 +343,18 @@ PROPS["C05"] = {
     "release_leg": True,
     "memcheck_leg": 60,
     "asan_leg": 60,
+    # (translator, every): all 2^32 aarch64 words (100 s on 16 cores); every 16th word of the capstone-decoded ones
+    "sweep_leg": [("aarch64", 1), ("mips", 16), ("mipsel", 16), ("ppc", 16)],
     "totality": True,
     "min_evaluations": 500000,
-    "technique": "totality + well-formedness monitor: hostile byte strings lifted by all 7 translators x both unsupported-instruction policies under catch_unwind; harness-written IL well-formedness checker and guard-determinism evaluator judge every result; dead/hung workers are attributed to the in-flight input; a thread that never lifted anything must give the same answer as the worker thread (no dependence on earlier lifts); thorough adds a plain-release leg, a valgrind memcheck leg and an AddressSanitizer leg (Rust code built with -Zsanitizer=address on nightly, capstone and bad64 compiled by clang -fsanitize=address) over the same workload (the disassemblers are C code behind FFI)",
+    "technique": "totality + well-formedness monitor: hostile byte strings lifted by all 7 translators x both unsupported-instruction policies under catch_unwind; harness-written IL well-formedness checker and guard-determinism evaluator judge every result; dead/hung workers are attributed to the in-flight input; a thread that never lifted anything must give the same answer as the worker thread (no dependence on earlier lifts); thorough adds a plain-release leg, a valgrind memcheck leg and an AddressSanitizer leg (Rust code built with -Zsanitizer=address on nightly, capstone and bad64 compiled by clang -fsanitize=address) over the same workload (the disassemblers are C code behind FFI); a sweep leg lifts all 2^32 AArch64 words and every 16th MIPS/MIPSel/PPC word once in the plain release build (a dead worker is a violation)",
+    "exhaustive_part": "thorough: every one of the 2^32 32-bit words through AArch64::translate_block at address 0x400000 under the default policy (no panic, abort or hang); every 16th word (phase = seed mod 16) for mips, mipsel and ppc",
     "rule": "uniform random bytes (x86: 1-15 bytes, prefixed/two-byte opcodes, 8-48 byte streams; fixed-width ISAs: 1-3 words incl. lengths not a "
             "multiple of 4), class templates of the C02/C03 generators with a random bit flipped, at addresses 0, page-straddling, around 2^32 and near "
             "(but not wrapping) 2^64; thorough adds a stratified sweep of every value of the top 16 bits x 4 random low halves for the 5 fixed-width "
             "translators. Checked per result: every expression sort-correct, Assign/Load/Store/Branch/guard widths, entry and exit present with exit "
             "reachable, edges join existing blocks, exactly one enabled guard per block and in the successor list (exhaustive when the guards read "
-            "<= 12 bits of scalars, else 48 corner-biased valuations), re-lifting gives the same result. Distinct = (translator, policy, input kind, instructions lifted).",
+            "<= 12 bits of scalars, else 48 corner-biased valuations), re-lifting gives the same result. Distinct = (translator, policy, input kind, instructions lifted). Loads and stores must address memory at the translator's address width (32 bits for x86/mips/mipsel/ppc, 64 for amd64/aarch64/aarch64eb); indirect branch targets may be narrower (66h-prefixed near branches).",
     "level_text": "Sampled byte strings per translator configuration; the 2^32 word spaces are sampled (thorough: stratified), not swept.",
     "level_note": "trusts the well-formedness rules in harness/src/c05.rs and refeval.rs; blocks that would wrap around the 2^64 address space are not generated (the IL has no wrap-around program counter)",
     "assumptions": [
